@@ -33,6 +33,8 @@ pub mod build_ {
 use super::*;
 use vstd::prelude::*;
 use roundtrip_::{built, tag_closed, plain, writable_start, gt};
+use escfn_::{escape, spec_escape, p_full, lemma_full_escape_no_quote, cow_str_bytes};
+use vstd::string::*;
 
 /// assumed shim for `bytes.splice(..n, name.iter().cloned())` (the replacement happens in `Drop` of the
 /// `Splice` iterator, which Verus does not model): the first n bytes are replaced by `name`
@@ -159,6 +161,49 @@ impl<'a> BytesStart<'a> {
         self
     }
 //@end
+}
+
+pub assume_specification[ String::into_bytes ](s: String) -> (v: Vec<u8>)
+    ensures v@ == vstd::utf8::encode_utf8(s@);
+impl<'a> vstd::std_specs::convert::FromSpecImpl<(&'a str, &'a str)> for Attribute<'a> {
+    open spec fn obeys_from_spec() -> bool { false }
+    open spec fn from_spec(e: (&'a str, &'a str)) -> Self { arbitrary() }
+}
+impl<'a> From<(&'a str, &'a str)> for Attribute<'a> {
+//@extract attributes::Attribute::from_str_pair | src/events/attributes.rs :: impl<'a> From<(&'a str, &'a str)> for Attribute<'a> :: fn from | serves=C09
+//@rewrite escape(val.1) ==> escape(Cow::Borrowed(val.1))
+    /// Creates new attribute from text representation.
+    /// Key is stored as-is, but the value will be escaped.
+    ///
+    /// # Examples
+    ///
+    /// ```
+    /// # use pretty_assertions::assert_eq;
+    /// use quick_xml::events::attributes::Attribute;
+    ///
+    /// let features = Attribute::from(("features", "Bells & whistles"));
+    /// assert_eq!(features.value, "Bells &amp; whistles".as_bytes());
+    /// ```
+    fn from(val: (&'a str, &'a str)) -> (r: Attribute<'a>)
+        // C09: the key is stored as it is, the value is the fully escaped text -- so it holds no quote
+        ensures r.key.0@ == val.0.spec_bytes(), r.value@ == spec_escape(val.1.spec_bytes(), p_full())
+    {
+        proof { axiom_cow_mut_bytes(); }
+        Attribute {
+            key: QName(val.0.as_bytes()),
+            value: match escape(Cow::Borrowed(val.1)) {
+                Cow::Borrowed(s) => Cow::Borrowed(s.as_bytes()),
+                Cow::Owned(s) => Cow::Owned(s.into_bytes()),
+            },
+        }
+    }
+//@end
+}
+/// an attribute made from a string pair can be pushed and read back: its value holds no quote and no '<' / '>'
+pub proof fn lemma_str_pair_value_writable(v: Seq<u8>)
+    ensures writable_value(spec_escape(v, p_full()))
+{
+    lemma_full_escape_no_quote(v);
 }
 
 /// pushing an attribute keeps an element readable: it still is `writable_start` with the same name
